@@ -135,15 +135,19 @@ static std::vector<std::string> B_strings(int variant) {
   return {"abcabc", "abcabd", "bcdbcd", "bcdbce"};
 }
 static StringDictionary *B_build(int variant, int blocks, int threads) {
-  std::vector<std::string> S = B_strings(variant);
+  // variant = string set (variant % 3) + 3 * cut selector: among all cut sizes that give `blocks` blocks take the
+  // smallest (0), the largest (1: shortest last block, total < blocks * cut) or the middle one (2)
+  std::vector<std::string> S = B_strings(variant % 3);
+  int cutsel = variant / 3;
   std::string t; for (auto &s : S) { t += s; t += '\0'; }
-  // choose a cut size that yields `blocks` blocks: a block closes once its size exceeds cut
   unsigned long total = t.size(), cut = total;
+  std::vector<unsigned long> good;
   for (unsigned long c = 0; c <= total; c++) {
     int nb = 0; unsigned long acc = 0; size_t k = 0;
     for (auto &s : S) { acc += s.size() + 1; k++; if (k == S.size() || acc > c) { nb++; acc = 0; } }
-    if (nb == blocks) { cut = c; break; }
+    if (nb == blocks) good.push_back(c);
   }
+  if (!good.empty()) cut = cutsel == 0 ? good.front() : cutsel == 1 ? good.back() : good[good.size() / 2];
   uchar *buf = new uchar[t.size() + 2]; memcpy(buf, t.data(), t.size()); buf[t.size()] = 0; buf[t.size() + 1] = 0;
   return new StringDictionaryHASHRPDACBlocks(new IteratorDictStringPlain(buf, t.size()), t.size(), 10, cut, threads);
 }
